@@ -55,6 +55,8 @@ pub struct ValCfg {
 	pub budget: i32,
 	/// when > 0, one string / bytes value in three is between boost/2 and boost bytes long
 	pub str_boost: usize,
+	/// deliberately large-scale values for a schema from `ast::gen_scale_schema`
+	pub scale: Option<crate::ast::Scale>,
 }
 impl ValCfg {
 	pub fn small() -> Self {
@@ -63,7 +65,17 @@ impl ValCfg {
 			max_depth: 4,
 			budget: 60,
 			str_boost: 0,
+			scale: None,
 		}
+	}
+	/// the configuration to use with a schema from `ast::gen_scale_schema`
+	pub fn with_scale(mut self, scale: Option<crate::ast::Scale>) -> Self {
+		if let Some(sc) = scale {
+			self.scale = Some(sc);
+			self.max_depth = self.max_depth.max(2 * sc.depth + 4);
+			self.budget = self.budget.max(64 + 4 * sc.len as i32 + 8 * sc.depth as i32 + sc.width as i32 * 2);
+		}
+		self
 	}
 }
 
@@ -180,6 +192,16 @@ fn gen_val_inner(rng: &mut Rng, env: &Env, ty: &Ty, cfg: &ValCfg, budget: &mut i
 			1 => (rng.range(-100, 100) as f64 * 0.25).to_bits(),
 			_ => rng.next_u64(),
 		}),
+		Ty::Bytes | Ty::String if cfg.scale.map_or(false, |sc| sc.str_len > 0) && rng.chance(2, 3) => {
+			// exact lengths around a threshold
+			let sc = cfg.scale.unwrap();
+			let n = (sc.str_len as i64 + rng.range(-2, 2)).max(0) as usize;
+			if matches!(env.resolve(ty), Ty::Bytes) {
+				Val::Bytes(rng.bytes(n))
+			} else {
+				Val::Str((0..n).map(|i| (b'a' + ((i * 7 + n) % 26) as u8) as char).collect())
+			}
+		}
 		Ty::Bytes => {
 			let n = if cfg.str_boost > 0 && rng.chance(1, 3) { cfg.str_boost / 2 + rng.usize(cfg.str_boost / 2 + 1) } else { rng.usize(cfg.max_len + 1) };
 			Val::Bytes(rng.bytes(n))
@@ -203,11 +225,19 @@ fn gen_val_inner(rng: &mut Rng, env: &Env, ty: &Ty, cfg: &ValCfg, budget: &mut i
 		Ty::Fixed { size, .. } => Val::Fixed(rng.bytes(*size as usize)),
 		Ty::Enum { symbols, .. } => Val::Enum(rng.below(*symbols as u64) as u16),
 		Ty::Array(t) => {
-			let n = if exhausted { 0 } else { rng.usize(cfg.max_len + 1) };
+			let n = match cfg.scale {
+				Some(sc) if sc.len > 0 && !exhausted && depth + 2 >= cfg.max_depth => sc.len,
+				_ if exhausted => 0,
+				_ => rng.usize(cfg.max_len + 1),
+			};
 			Val::Array((0..n).map(|_| gen_val_inner(rng, env, t, cfg, budget, depth - 1)).collect())
 		}
 		Ty::Map(t) => {
-			let n = if exhausted { 0 } else { rng.usize(cfg.max_len + 1) };
+			let n = match cfg.scale {
+				Some(sc) if sc.len > 0 && !exhausted && depth + 2 >= cfg.max_depth => sc.len,
+				_ if exhausted => 0,
+				_ => rng.usize(cfg.max_len + 1),
+			};
 			Val::Map(
 				(0..n)
 					.map(|i| {
@@ -226,6 +256,9 @@ fn gen_val_inner(rng: &mut Rng, env: &Env, ty: &Ty, cfg: &ValCfg, budget: &mut i
 					.position(|t| matches!(t, Ty::Null))
 					.or_else(|| ts.iter().position(|t| !matches!(t, Ty::Ref(_) | Ty::Record { .. } | Ty::Array(_) | Ty::Map(_))))
 					.unwrap_or(0)
+			} else if cfg.scale.map_or(false, |sc| sc.depth > 0) && depth > 3 {
+				// a deliberately deep value: keep descending
+				ts.iter().rposition(|t| matches!(t, Ty::Ref(_) | Ty::Record { .. })).unwrap_or(0)
 			} else {
 				rng.usize(ts.len())
 			};
@@ -629,3 +662,69 @@ impl<'a> serde::Serialize for Presented<'a> {
 	}
 }
 
+
+
+/// Which large-scale features a value has (probe names): what small random generation does not reach
+pub fn scale_classes(v: &Val, out: &mut Vec<&'static str>) {
+	fn add(out: &mut Vec<&'static str>, k: &'static str) {
+		if !out.contains(&k) {
+			out.push(k);
+		}
+	}
+	fn go(v: &Val, depth: u32, out: &mut Vec<&'static str>) {
+		if depth == 24 {
+			add(out, "scale_value_nested_24_deep");
+		}
+		match v {
+			Val::Bytes(b) | Val::Fixed(b) => {
+				if b.len() >= 8190 {
+					add(out, "scale_field_of_8_kib_or_more");
+				}
+				if b.len() > 65536 {
+					add(out, "scale_field_above_64_kib");
+				}
+			}
+			Val::Str(s) => {
+				if s.len() >= 8190 {
+					add(out, "scale_field_of_8_kib_or_more");
+				}
+				if s.len() > 65536 {
+					add(out, "scale_field_above_64_kib");
+				}
+			}
+			Val::Enum(i) if *i >= 64 => add(out, "scale_enum_index_of_two_bytes"),
+			Val::Array(items) => {
+				if items.len() >= 64 {
+					add(out, "scale_block_count_of_two_bytes");
+				}
+				if items.len() >= 8192 {
+					add(out, "scale_block_count_of_three_bytes");
+				}
+				items.iter().for_each(|x| go(x, depth + 1, out));
+			}
+			Val::Map(items) => {
+				if items.len() >= 64 {
+					add(out, "scale_block_count_of_two_bytes");
+				}
+				if items.len() >= 8192 {
+					add(out, "scale_block_count_of_three_bytes");
+				}
+				items.iter().for_each(|(_, x)| go(x, depth + 1, out));
+			}
+			Val::Record(fs) => {
+				if fs.len() >= 64 {
+					add(out, "scale_record_of_64_fields_or_more");
+				}
+				fs.iter().for_each(|x| go(x, depth + 1, out));
+			}
+			Val::Union(i, inner) => {
+				if *i >= 64 {
+					add(out, "scale_union_index_of_two_bytes");
+				}
+				go(inner, depth + 1, out);
+			}
+			_ => {}
+		}
+	}
+	go(v, 0, out);
+}
